@@ -63,7 +63,13 @@ static void s_saveload(Ctx& c, Out& o) {
   if (!o.model) snprintf(o.err, sizeof(o.err), "NULL return");
 }
 static void s_copyspec(Ctx& c, Out& o) { o.spec = mj_copySpec(c.spec); o.status = o.spec ? 0 : 1; if (!o.spec) snprintf(o.err, sizeof(o.err), "NULL return"); }
-static void s_recompile(Ctx& c, Out& o) { o.status = mj_recompile(c.spec, nullptr, c.model, c.data); if (o.status) snprintf(o.err, sizeof(o.err), "%s", mjs_getError(c.spec)); }
+static void s_recompile(Ctx& c, Out& o) {
+  mjModel* m = c.model; mjData* d = c.data;
+  c.model = nullptr; c.data = nullptr;     // documented: on failure mj_recompile deletes the given model and data
+  o.status = mj_recompile(c.spec, nullptr, m, d);
+  if (o.status) snprintf(o.err, sizeof(o.err), "%s", mjs_getError(c.spec));
+  else { c.model = m; c.data = d; }
+}
 static void s_step(Ctx& c, Out& o) { for (int i = 0; i < 3; i++) mj_step(c.model, c.data); mj_forward(c.model, c.data); mj_inverse(c.model, c.data); }
 static void s_scene(Ctx& c, Out& o) { mjv_defaultScene(&o.scn); o.scn_made = true; mjv_makeScene(c.model, &o.scn, 500); }
 static void s_print(Ctx& c, Out& o) { mj_printModel(c.model, "/dev/null"); mj_printData(c.model, c.data, "/dev/null"); }
@@ -95,6 +101,7 @@ static void teardown(Ctx& c) {
 static const char* symname(void* addr, char* buf, size_t n) {
   Dl_info info;
   if (addr && dladdr(addr, &info) && info.dli_sname) snprintf(buf, n, "%s", info.dli_sname);
+  else if (addr && dladdr(addr, &info) && info.dli_fname) snprintf(buf, n, "@%s+0x%lx", info.dli_fname, (unsigned long)((char*)addr - (char*)info.dli_fbase));
   else snprintf(buf, n, "?");
   return buf;
 }
@@ -144,7 +151,7 @@ static long run_once(const Scen& s, const std::string& xml, const std::string& p
   void* callers[64];
   int nl = vf_alloc_live_callers((long)s0, callers, 64);
   if (nl > 0) {
-    char buf[128];
+    char buf[400];
     std::string who;
     for (int i = 0; i < nl && i < 64; i++) { symname(callers[i], buf, sizeof(buf)); if (who.find(buf) == std::string::npos) { if (!who.empty()) who += ","; who += buf; } }
     printf("LEAK %s k=%ld blocks=%d outcome=%s allocated_in=%s\n", tag, fail_k, nl, trapped ? "trapped-error" : (o.status ? "error-return" : "ok"), who.c_str());
@@ -178,6 +185,14 @@ int main(int argc, char** argv) {
     for (long k = k0; k < k1; k++) {
       printf("K %ld\n", k);
       run_once(*s, xml, path, k, 0, 0, s->name);
+    }
+  } else if (!strcmp(argv[3], "list")) {
+    char* tok = strtok(argv[4], ",");
+    while (tok) {
+      long k = atol(tok);
+      printf("K %ld\n", k);
+      run_once(*s, xml, path, k, 0, 0, s->name);
+      tok = strtok(nullptr, ",");
     }
   } else if (!strcmp(argv[3], "multi")) {
     unsigned long long seed = strtoull(argv[4], 0, 10);
